@@ -620,7 +620,7 @@ struct Dumper
             diags();
         }
         const auto& sm = doc.get_supported_methods();
-        if (o.mask_decl_templ == -2) {  // document-wide verdicts depend on every declaration, also on the faulted one
+        if (o.mask_decl_templ == -2 && !o.typechecked_only) {  // document-wide verdicts depend on every declaration, also on the faulted one
         os << "\nsupported: " << sm.symbolic << sm.stochastic << sm.concrete;
         os << "\nflags: prio=" << doc.has_priority_declaration() << " strictinv=" << doc.has_strict_invariants()
            << " stopwatch=" << doc.has_stop_watch()
